@@ -57,6 +57,9 @@ Definition apply_writes (w : list (bytes * bytes)) (s : store) : store :=
 Inductive ctype := TM | BSC | ETH | TSS.
 Definition ctype_eqb (a b : ctype) : bool :=
   match a, b with TM, TM | BSC, BSC | ETH, ETH | TSS, TSS => true | _, _ => false end.
+(** client types whose counterparty has a block 0 ([GenesisState.Validate]: a zero-height consensus
+    state is accepted for these only) *)
+Definition has_height_zero (t : ctype) : bool := match t with ETH | BSC => true | _ => false end.
 
 (** [types.IdentifiedRelayer] *)
 Record relayer := { r_address : bytes; r_chains : list bytes; r_addresses : list bytes }.
@@ -326,7 +329,8 @@ Section Genesis.
     && forallb (fun ncs =>
          match lookup_last (fst ncs) (g_clients g) with
          | None => false
-         | Some c => forallb (fun hc => negb (height_is_zero (fst hc)) && cons_valid (snd hc)
+         | Some c => forallb (fun hc => negb (height_is_zero (fst hc) && negb (has_height_zero (cs_type c)))
+                                        && cons_valid (snd hc)
                                         && ctype_eqb (cs_type c) (cons_type (snd hc))) (snd ncs)
          end) (g_consensus g)
     && forallb (fun igm =>
@@ -540,15 +544,13 @@ Section Genesis.
           valid_chain_name name && match cs_unmarshal v with Some c => cs_valid c | None => false end
         else match parse_consensus_state_key path with
              | Some h =>
-                 negb (height_is_zero h)                                        (* kind 1: zero height *)
-                 && match cons_unmarshal v with
-                    | Some c => cons_valid c
-                                && match client_type_of name s with
-                                   | Some t => ctype_eqb t (cons_type c)        (* kind 2: type agreement *)
-                                   | None => false                              (* no client for the chain name *)
-                                   end
-                    | None => false
-                    end
+                 match cons_unmarshal v, client_type_of name s with
+                 | Some c, Some t =>
+                     negb (height_is_zero h && negb (has_height_zero t))        (* zero height (TM / TSS only) *)
+                     && cons_valid c
+                     && ctype_eqb t (cons_type c)                               (* type agreement *)
+                 | _, _ => false                                                (* no client for the chain name *)
+                 end
              | None => negb (is_nil v)                                          (* kind 3: empty metadata value *)
              end
     end.
@@ -584,7 +586,9 @@ Section Genesis.
     flat_map (fun kv => match iter_consensus_states (fst kv) with Got (n, h) => [(n, h, snd kv)] | Skip => [] end) s.
 
   Definition has_zero_height (s : store) : bool :=
-    existsb (fun x => height_is_zero (snd (fst x))) (consensus_entries s).
+    existsb (fun x => height_is_zero (snd (fst x))
+                      && match client_type_of (fst (fst x)) s with Some t => negb (has_height_zero t) | None => true end)
+            (consensus_entries s).
   Definition has_mixed_types (s : store) : bool :=
     existsb (fun x => match cons_unmarshal (snd x), client_type_of (fst (fst x)) s with
                       | Some c, Some t => negb (ctype_eqb t (cons_type c))
